@@ -106,6 +106,18 @@ def gen_table(rng, n_enums, big=False):
         pass
     if "status" in fields:
         spec["types"] = {"status": rng.randrange(n_enums)}
+    if len(recs) >= 8 and rng.random() < 0.25:
+        # which records are visible depends on the break lines: a break-by column, limits that hide records,
+        # the other columns take their widths from the visible records
+        brk = rng.choice([f for f in fields if f != "name"])
+        others = [f for f in rng.sample(fields, len(fields)) if f != brk][: rng.randint(1, 2)]
+        if "name" not in others:
+            others[0] = "name"
+        cols = [brk + "!"] + [f + rng.choice(["", "", ":1-40", ":2-30"]) for f in others]
+        rng.shuffle(cols)
+        spec["fmt"] = ",".join(cols) + f";{rng.randint(1, 3)}:{rng.randint(0, 3)}"
+        spec["brk_lim"] = True
+        return spec
     cols = []
     if rng.random() < 0.6:
         for f in rng.sample(fields, rng.randint(1, len(fields))):
@@ -126,7 +138,7 @@ def gen_table(rng, n_enums, big=False):
         fmt = ",".join(cols)
         if rng.random() < 0.3:
             fmt += f";{rng.randint(0, 3)}:{rng.randint(0, 3)}"
-        if rng.random() < 0.2 and len(recs) >= 4 and cols:
+        if rng.random() < 0.3 and len(recs) >= 4 and cols:
             # break lines together with limits that really hide records: which records are visible
             # depends on the break-by columns
             if not any("!" in c for c in cols):
@@ -259,6 +271,8 @@ def gen_tbl_op(rng, spec):
     if rng.random() < 0.25:
         return {"op": "tbl_remove", "names": rng.sample(fields, rng.randint(1, 2)), "via_fmt_obj": rng.random() < 0.3}
     how = rng.choice(["drop", "drop", "reorder", "toggle", "fresh", "same", "limits"])
+    if any("!" in c for c in cur) and len(cur) > 1 and rng.random() < (0.8 if spec.get("brk_lim") else 0.5):
+        how = "drop"         # without its break-by column other records are visible under the same limits
     cols = list(cur)
     if how == "drop" and len(cols) > 1:
         brk = [i for i, c in enumerate(cols) if "!" in c]
@@ -286,7 +300,7 @@ def gen_tbl_op(rng, spec):
             cols.append(c)
     elif how == "limits":
         cols = None
-    lim = [rng.randint(0, 3), rng.randint(0, 3)] if (how == "limits" or rng.random() < 0.25) else None
+    lim = [rng.randint(0, 3), rng.randint(0, 3)] if (how == "limits" or rng.random() < 0.15) else None
     return {"op": "tbl_refmt", "cols": cols, "lim": lim, "via_prop": rng.random() < 0.5}
 
 
@@ -307,6 +321,21 @@ PP_VALUES = [
     {"k": ["x" * 148, "y"], "z": ["y" * 149]},
     [True, False, None, 0, 1, "", [], {}, [[]], [{}]],
 ]
+
+
+def gen_enum_heavy_table(rng, n_enums):
+    """a table with many records and many different values in its enum column: the field type object shared by
+    all tables of the run meets hundreds of distinct values over a long history"""
+    fields = ["id", "status", "name"]
+    recs = [[i + 1, rng.randrange(5000) if rng.random() < 0.9 else rng.choice([0, 1, 2, 3, 10, 17, 200]),
+             rng.choice(NAMES_S)] for i in range(rng.choice([45, 50, 50, 64]))]
+    spec = {"kind": "table", "fields": fields, "records": recs, "types": {"status": 0}}
+    fmt = rng.choice([None, "id,status/val", "status/val,name", "id,status/name,status/val", "status/full,id", "status/val"])
+    if fmt:
+        spec["fmt"] = fmt
+    if rng.random() < 0.7:
+        spec["titles"] = {"status": "St"}
+    return spec
 
 
 def gen_object(rng, n_enums, big=False):
@@ -371,13 +400,25 @@ def generate(rng, tier):
     if rng.random() < 0.5:
         inits.append({})
     objs = [gen_object(rng, n_enums, tier != "quick") for _ in range(rng.randint(2, 4))]
+    long_run = rng.random() < 0.03
+    if long_run:
+        # a long history for the shared field types: many big tables with many different enum values
+        n_enums = max(1, n_enums)
+        if not enums:
+            enums = [gen_enum(rng)]
+        for e in enums:
+            e["values"].append([1234567, "Big", None])      # a long declared value: '/val' cells are padded to it
+        objs = [gen_enum_heavy_table(rng, n_enums) for _ in range(rng.randint(8, 12))] + objs[:1]
     usr = gen_usr_batches(rng)
     ops = []
     live_conf = set()
     live_obj = {}
     live_task = {}
     cur = {}          # obj slot -> description of the object as re-formatted so far
+    rendered = set()  # obj slots rendered since they were made
     n_ops = rng.randint(15, 60 if tier != "quick" else 45)
+    if long_run:
+        n_ops = rng.randint(80, 140)
 
     def render_args(o):
         kind = cur[o]["kind"]
@@ -390,6 +431,12 @@ def generate(rng, tier):
 
     while len(ops) < n_ops:
         r = rng.random()
+        if long_run and live_conf:
+            r3 = rng.random()
+            if r3 < 0.22:
+                r = 0.09          # another object: the tables of a long run take turns
+            elif r3 < 0.6 and live_obj:
+                r = 0.6           # ... and are rendered
         if not live_conf or r < 0.08:
             s = rng.randrange(N_CONF)
             ops.append({"op": "conf_new", "slot": s, "init": rng.randrange(len(inits)), "no_color": rng.random() < 0.12})
@@ -417,6 +464,7 @@ def generate(rng, tier):
                 ops.append({"op": "obj_new", "slot": o, "spec": j})
                 cur[o] = objs[j]
             live_obj[o] = j
+            rendered.discard(o)
             for t in [t for t, oo in live_task.items() if oo == o]:
                 del live_task[t]
         elif r < 0.22:
@@ -443,9 +491,11 @@ def generate(rng, tier):
                         "no_color": rng.random() < 0.3, "synced": rng.random() < 0.15})
         elif r < 0.46:
             ops.append({"op": "gc"})
-        elif r < 0.51 and any(cur[o]["kind"] == "table" for o in live_obj):
+        elif r < 0.53 and any(cur[o]["kind"] == "table" for o in live_obj):
             # the life of a table: its format is re-assigned / columns are removed between renderings
-            o = rng.choice(sorted(o for o in live_obj if cur[o]["kind"] == "table"))
+            tables = sorted(o for o in live_obj if cur[o]["kind"] == "table")
+            shown = [o for o in tables if o in rendered]
+            o = rng.choice(shown) if shown and rng.random() < 0.8 else rng.choice(tables)
             a = gen_tbl_op(rng, cur[o])
             a["obj"] = o
             new = apply_tbl_op(cur[o], a)
@@ -454,8 +504,16 @@ def generate(rng, tier):
                 for t in [t for t, oo in live_task.items() if oo == o]:
                     del live_task[t]
             ops.append(a)
+            if new is not None and rng.random() < 0.7:
+                # ... and the table is shown again
+                a = render_args(o)
+                a["op"] = "render"
+                a["how"] = rng.choice(["str", "str", "plain", "lines"])
+                ops.append(a)
+                rendered.add(o)
         elif r < 0.70:
             o = rng.choice(sorted(live_obj))
+            rendered.add(o)
             a = render_args(o)
             a["op"] = "render"
             a["how"] = rng.choice(["str", "str", "plain", "lines"])
